@@ -50,12 +50,20 @@ const C_MEMO: usize = 14;
 #[derive(Clone, Debug, Serialize, Deserialize, PartialEq)]
 pub struct CsvFile {
     pub name: String,
+    /// Extra columns appended after the 15 standard ones (a repeated recognised column such as a
+    /// second "memo"/"commission", or an unknown one); every row then carries one more cell each.
+    #[serde(default)]
+    pub extra_cols: Vec<String>,
     pub rows: Vec<Vec<String>>,
 }
 
 impl CsvFile {
     pub fn text(&self) -> String {
         let mut s = HEADER.join(",");
+        for c in &self.extra_cols {
+            s.push(',');
+            s.push_str(c);
+        }
         s.push('\n');
         for r in &self.rows {
             s.push_str(&r.join(","));
@@ -351,10 +359,39 @@ pub fn generate(seed: u64, k_seeds: usize) -> Sc {
         }
     }
     let n_files = (r.below(3) + 1) as usize;
-    let mut files: Vec<CsvFile> = (0..n_files).map(|i| CsvFile { name: format!("tx{}.csv", i + 1), rows: vec![] }).collect();
+    let mut files: Vec<CsvFile> = (0..n_files).map(|i| CsvFile { name: format!("tx{}.csv", i + 1), extra_cols: vec![], rows: vec![] }).collect();
     let per = all_rows.len().div_ceil(n_files).max(1);
     for (i, (_, row)) in all_rows.into_iter().enumerate() {
         files[(i / per).min(n_files - 1)].rows.push(row);
+    }
+    // Unusual but legal headers: a recognised column named twice (the right-most non-empty cell
+    // wins), or a column the tool does not know (a warning on stderr).
+    for f in files.iter_mut() {
+        if r.chance(1, 5) {
+            let col = *r.pick(&["memo", "Memo", "commission", "broker"]);
+            f.extra_cols.push(col.to_string());
+            for row in f.rows.iter_mut() {
+                let is_trade = matches!(row[C_ACTION].to_lowercase().as_str(), "buy" | "sell");
+                let cell = match col {
+                    "commission" => {
+                        if is_trade && r.chance(2, 3) {
+                            cents_str(r.range(0, 999))
+                        } else {
+                            String::new()
+                        }
+                    }
+                    "broker" => "Questrade".to_string(),
+                    _ => {
+                        if r.chance(2, 3) {
+                            (*r.pick(&["second memo", "see statement", "dup"])).to_string()
+                        } else {
+                            String::new()
+                        }
+                    }
+                };
+                row.push(cell);
+            }
+        }
     }
     let sum_day = d(start_year, 1, 1) + Duration::days(r.range(100, span_days.max(101)));
     let mut hash_seeds = vec![];
@@ -406,10 +443,14 @@ pub struct RunOutput {
 }
 
 pub fn run_once(sc: &Sc, mode: Mode, hash_seed: u64) -> RunOutput {
-    run_once_in(sc, mode, hash_seed, false, None)
+    run_once_in(sc, mode, hash_seed, false, None, None)
 }
 
-pub fn run_once_in(sc: &Sc, mode: Mode, hash_seed: u64, keep_cache: bool, boc: Option<std::sync::Arc<crate::fx::BocData>>) -> RunOutput {
+const STALE_TAIL: &[u8] = b"STALE,TAIL,OF,AN,EARLIER,LONGER,RUN\nSTALE,TAIL,OF,AN,EARLIER,LONGER,RUN\n";
+
+/// `used_out_dir`: the output directory already holds these files from an earlier, longer run
+/// (same names, more bytes); the run must replace them, not write into them.
+pub fn run_once_in(sc: &Sc, mode: Mode, hash_seed: u64, keep_cache: bool, boc: Option<std::sync::Arc<crate::fx::BocData>>, used_out_dir: Option<&Vec<(String, Vec<u8>)>>) -> RunOutput {
     // Input files live on the simulated disk, so the real File::open/read path runs.
     let names: Vec<String> = sc.files.iter().map(|f| format!("/simfs/in/{}", f.name)).collect();
     with_world(|w| {
@@ -420,6 +461,13 @@ pub fn run_once_in(sc: &Sc, mode: Mode, hash_seed: u64, keep_cache: bool, boc: O
         }
         for (f, n) in sc.files.iter().zip(&names) {
             w.fs.disk.put_file(n, f.text().as_bytes());
+        }
+        if let Some(old) = used_out_dir {
+            for (n, data) in old {
+                let mut longer = data.clone();
+                longer.extend_from_slice(STALE_TAIL);
+                w.fs.disk.put_file(&format!("/simfs/out/{}", n), &longer);
+            }
         }
     });
     let published_today = sc.fx.as_ref().map(|f| f.published_today).unwrap_or(false);
@@ -780,10 +828,19 @@ impl Engine for C09 {
         let mut nontrivial = false;
         let mut perms: BTreeSet<String> = BTreeSet::new();
         let boc = sc.fx.as_ref().map(|f| std::sync::Arc::new(crate::fx::BocData::new(&f.cal, &f.format, &[])));
+        if sc.files.iter().any(|f| f.extra_cols.iter().any(|c| HEADER.contains(&c.to_lowercase().as_str()))) {
+            st.bump("probe.header_repeats_a_recognised_column");
+            nontrivial = true;
+        }
         for mode in &sc.modes {
             let mut first: Option<(u64, RunOutput)> = None;
             for (hi, hs) in sc.hash_seeds.iter().enumerate() {
-                let out = run_once_in(sc, *mode, *hs, hi > 0 && boc.is_some(), boc.clone());
+                // every other later process finds the output directory used by an earlier, longer run
+                let used = if hi % 2 == 1 && matches!(mode, Mode::CsvDir | Mode::TotalCostsCsvDir) { first.as_ref().map(|f| &f.1.files).filter(|f| !f.is_empty()) } else { None };
+                if used.is_some() {
+                    st.bump("probe.output_dir_used_by_an_earlier_longer_run");
+                }
+                let out = run_once_in(sc, *mode, *hs, hi > 0 && boc.is_some(), boc.clone(), used);
                 if boc.is_some() {
                     if hi == 0 && out.downloads > 0 {
                         st.bump("probe.fx_first_run_downloaded");
@@ -890,6 +947,16 @@ impl Engine for C09 {
             s.symbol_base.clear();
             c.push(s);
         }
+        for (fi, f) in sc.files.iter().enumerate() {
+            if !f.extra_cols.is_empty() {
+                let mut s = sc.clone();
+                s.files[fi].extra_cols.clear();
+                for row in s.files[fi].rows.iter_mut() {
+                    row.truncate(HEADER.len());
+                }
+                c.push(s);
+            }
+        }
         if let Some(fx) = &sc.fx {
             if !fx.cal.gaps.is_empty() || fx.cal.holidays.len() > 8 {
                 let mut s = sc.clone();
@@ -949,7 +1016,7 @@ impl Engine for C09 {
         "exploration"
     }
     fn rule(&self) -> String {
-        "Seeded portfolio generator (1-4 securities, 1-4 affiliates incl. registered, buys/sells/RoC/manual SfLA/global+per-affiliate splits, CAD and explicit-rate USD, tied cost days, securities differing only in case, 1-3 files; in a quarter of the inputs some USD rows carry no rate and the K processes of a mode run one after the other over one simulated ~/.acb, so the first downloads from the simulated Bank of Canada and the others find its cache) x 7 output modes x K per-process hash seeds (K=6 quick, 24 thorough); each (input, mode, seed) is one simulated process running the real run_acb_app_to_console. Oracle: stdout bytes and (file name, bytes) of the output directory identical across seeds. evaluations = inputs; distinct_nontrivial = distinct inputs (digest of scenario JSON) whose run reached at least one probe (>=2 securities rendered, global split over >=2 affiliates, ignored notes in >=2 securities, tied yearly-max days, auto-SfL shared by >=2 affiliates, gains in >=2 years, summary with >=2 affiliates/securities).".to_string()
+        "Seeded portfolio generator (1-4 securities, 1-4 affiliates incl. registered, buys/sells/RoC/manual SfLA/global+per-affiliate splits, CAD and explicit-rate USD, tied cost days, securities differing only in case, 1-3 files, a fifth of the files with a repeated recognised column (second memo/commission) or an unknown column; in --csv-output-dir modes every other later process finds the output directory already holding longer files of the same names from an earlier run; in a quarter of the inputs some USD rows carry no rate and the K processes of a mode run one after the other over one simulated ~/.acb, so the first downloads from the simulated Bank of Canada and the others find its cache) x 7 output modes x K per-process hash seeds (K=6 quick, 24 thorough); each (input, mode, seed) is one simulated process running the real run_acb_app_to_console. Oracle: stdout bytes and (file name, bytes) of the output directory identical across seeds. evaluations = inputs; distinct_nontrivial = distinct inputs (digest of scenario JSON) whose run reached at least one probe (>=2 securities rendered, global split over >=2 affiliates, ignored notes in >=2 securities, tied yearly-max days, auto-SfL shared by >=2 affiliates, gains in >=2 years, summary with >=2 affiliates/securities).".to_string()
     }
     fn state_measure(&self) -> String {
         "distinct (mode, exit status, number of output files, stdout size bucket of 2 KiB) tuples".to_string()
@@ -980,6 +1047,8 @@ impl Engine for C09 {
             "probe.summary_ge2_securities",
             "probe.hash_seed_changed_probe_set_order",
             "probe.securities_differing_only_in_case",
+            "probe.output_dir_used_by_an_earlier_longer_run",
+            "probe.header_repeats_a_recognised_column",
             "probe.fx_first_run_downloaded",
             "probe.fx_second_run_served_from_cache",
         ]
